@@ -194,6 +194,7 @@ func vself() *verifThread {
 	return vs.byG[vgoid()]
 }
 
+func verifGoOrder(on bool)   {}
 func verifInterleave(on bool) {
 	if vstress() {
 		return
@@ -617,6 +618,16 @@ func verifHasExtFail(tag string) bool {
 func verifFailsOn(tag string, input string) bool {
 	for _, it := range verifDoc.Vector {
 		if it.Kind == "ext-fail-on" && it.Tag == tag && it.Val == input {
+			return true
+		}
+	}
+	return false
+}
+
+// verifExtTrue: did the solver's run make the environment choice with this tag (at least once) come out true
+func verifExtTrue(tag string) bool {
+	for _, it := range verifDoc.Vector {
+		if it.Kind == "ext-bool" && it.Tag == tag && it.Val == "true" {
 			return true
 		}
 	}
